@@ -8,6 +8,7 @@ def dispatch (op : String) (payload : Json) : R Json :=
   | "swaps" => C04.handle payload
   | "unbind" => C04.handleUnbind payload
   | "results" => C03.handle payload
+  | "c03_spec" => C03.handleSpec payload
   | "analyse_fn" => Visit.handle payload
   | "analyse_callable" => Callable.handle payload
   | "cli_merge" => C20.handle payload
